@@ -201,6 +201,78 @@ func runC06ConcurrentInner(c *Ctx) error {
 		db.Close()
 		os.RemoveAll(dir)
 		c.Count("c06-dynamic-threshold-round")
+
+		// ---- (c) threshold moving while ONE request is between valueLog.write and writeToLSM ----
+		// a few big values raise the percentile; then one transaction carries medium values
+		// (below the raised threshold) and thousands of small ones: valueLog.write hands their
+		// sizes to the threshold listener, which lowers the threshold below the medium size
+		// while the request's entries are still being put into the memtable
+		dir = filepath.Join(os.Getenv("VERIF_SCRATCH_DIR"), fmt.Sprintf("c06c_%d", r))
+		os.RemoveAll(dir)
+		opt = badger.DefaultOptions(dir).WithLoggingLevel(badger.ERROR).WithValueThreshold(32).
+			WithVLogPercentile([]float64{0.99, 0.95, 0.9}[r%3]).WithMemTableSize(16 << 20).WithValueLogFileSize(64 << 20)
+		db, err = badger.Open(opt)
+		if err != nil {
+			return err
+		}
+		want = map[string][]byte{}
+		for i := 0; i < 20; i++ {
+			k := fmt.Sprintf("big-%03d", i)
+			v := c06Val(k, i, 8000)
+			if db.Update(func(txn *badger.Txn) error { return txn.Set([]byte(k), v) }) == nil {
+				want[k] = v
+			}
+		}
+		risen := false
+		for t0 := time.Now(); time.Since(t0) < 5*time.Second; time.Sleep(time.Millisecond) {
+			if db.VerifValueThreshold() > 4000 {
+				risen = true
+				break
+			}
+		}
+		if risen {
+			for rep := 0; rep < 3; rep++ {
+				txn := db.NewTransaction(true)
+				keys := map[string][]byte{}
+				ok := true
+				for i := 0; i < 20 && ok; i++ {
+					k := fmt.Sprintf("mid-%d-%03d", rep, i)
+					v := c06Val(k, i, 1500+c.Rng.Intn(1500))
+					ok = txn.SetEntry(badger.NewEntry([]byte(k), v).WithMeta(byte(i+1))) == nil
+					keys[k] = v
+				}
+				for i := 0; i < 6000 && ok; i++ {
+					k := fmt.Sprintf("small-%d-%05d", rep, i)
+					v := c06Val(k, i, 33+c.Rng.Intn(20))
+					ok = txn.Set([]byte(k), v) == nil
+					keys[k] = v
+				}
+				if ok && txn.Commit() == nil {
+					for k, v := range keys {
+						want[k] = v
+					}
+				} else {
+					txn.Discard()
+				}
+				// raise it again for the next repetition
+				for i := 0; i < 12; i++ {
+					k := fmt.Sprintf("big-%d-%03d", rep, i)
+					v := c06Val(k, i, 9000)
+					if db.Update(func(txn *badger.Txn) error { return txn.Set([]byte(k), v) }) == nil {
+						want[k] = v
+					}
+				}
+				for t0 := time.Now(); time.Since(t0) < 2*time.Second && db.VerifValueThreshold() <= 4000; time.Sleep(time.Millisecond) {
+				}
+			}
+			c06ReadBack(c, db, want, "c06-value-differs-when-threshold-moves-inside-a-write-request",
+				"a value of a request whose entries were between valueLog.write and writeToLSM when the dynamic threshold moved reads back differently", J{"phase": "open"})
+			c.Count("c06-threshold-inside-request-round")
+		} else {
+			c.Count("c06-threshold-inside-request-skipped(threshold did not rise)")
+		}
+		db.Close()
+		os.RemoveAll(dir)
 	}
 	return nil
 }
